@@ -36,6 +36,9 @@ import (
 //	      (routes are compiled at registration) and restores the map before the mount op returns, also on a
 //	      panic.  A global var is only the default of a route var WITHOUT inline regex; the static handlers'
 //	      routes all have one ("{file:.+}", "{file:.+\.(?:exts)}"), so the model ignores gvar.
+//	sibling <POST|PUT|DELETE> <regex|->       the application registers `<METHOD> <prefix>/{file[:regex]}` on the router
+//	      right before the NEXT mount (an upload / purge end point under the asset prefix).  Every request of this
+//	      engine is a GET, so the model ignores it.
 //	viasym                                    the root of the NEXT mount is handed to rux as a symbolic link to www+target
 //	addmount <kind> <flags> <prefix> <exts> <target>   one more Static* call on the same router (engine_static_multi.go)
 //	grow <files> <dirs>                       further paths appear in the tree, the mount stays (engine_static_root.go:
@@ -276,9 +279,10 @@ func (staticEngine) Run(ops []string) (ans []string, oracle []string) {
 	var router *rux.Router
 	var cfg mountCfg
 	var fsNames []string
-	var gvars [][2]string // defined by gvar ops, consumed by the next mount
-	var viaSym bool       // set by viasym, consumed by the next mount
-	var mounts []mountCfg // all mounts of the current router (mount + addmount)
+	var gvars [][2]string    // defined by gvar ops, consumed by the next mount
+	var siblings [][2]string // (method, regex) of the sibling ops, consumed by the next mount
+	var viaSym bool          // set by viasym, consumed by the next mount
+	var mounts []mountCfg    // all mounts of the current router (mount + addmount)
 
 	ensureBox := func() error {
 		if sb != nil {
@@ -320,6 +324,14 @@ func (staticEngine) Run(ops []string) (ans []string, oracle []string) {
 					return "bad-op"
 				}
 				gvars = append(gvars, [2]string{n, v})
+				return "ok"
+
+			case f[0] == "sibling" && len(f) == 3:
+				re, ok := unohx(f[2])
+				if (f[1] != "POST" && f[1] != "PUT" && f[1] != "DELETE") || (f[2] != "-" && !ok) {
+					return "bad-op"
+				}
+				siblings = append(siblings, [2]string{f[1], re})
 				return "ok"
 
 			case f[0] == "viasym" && len(f) == 1:
@@ -388,6 +400,19 @@ func (staticEngine) Run(ops []string) (ans []string, oracle []string) {
 				if sym {
 					dir = stRootLink(sb, dir)
 				}
+				// sibling routes: `<METHOD> <prefix>/{file[:regex]}` registered BEFORE the static handler (an upload or purge
+				// end point under the asset prefix); a registration that rux refuses is skipped
+				for _, sbl := range siblings {
+					pat := cfg.prefix + "/{file}"
+					if sbl[1] != "" {
+						pat = cfg.prefix + "/{file:" + sbl[1] + "}"
+					}
+					func() {
+						defer func() { _ = recover() }()
+						r.Add(pat, func(c *rux.Context) { c.SetStatus(204) }, sbl[0])
+					}()
+				}
+				siblings = nil
 				known := true
 				withGlobalVars(pending, func() {
 					switch cfg.kind {
@@ -544,6 +569,13 @@ func mountOpF(kind string, flags int, prefix string, exts []string, target strin
 	return fmt.Sprintf("mount %s %d %s %s %s", kind, flags, hx(prefix), hxList(exts), hx(target))
 }
 
+func siblingOp(method, regex string) string {
+	if regex == "" {
+		return "sibling " + method + " -"
+	}
+	return "sibling " + method + " " + hx(regex)
+}
+
 func gvarOp(name, regex string) string { return "gvar " + hx(name) + " " + hx(regex) }
 
 func reqOps(targets ...string) []string {
@@ -651,6 +683,9 @@ func (staticEngine) Corpus() []Case {
 		ops := []string{tree}
 		for _, nv := range gc.vars {
 			ops = append(ops, gvarOp(nv[0], nv[1]))
+		}
+		if gc.flags == 1 { // and a DELETE end point under the same prefix, registered first
+			ops = append(ops, siblingOp("DELETE", ""), siblingOp("POST", ".+"))
 		}
 		ops = append(ops, mountOpF(gc.kind, gc.flags, gc.prefix, gc.exts, ""))
 		ops = append(ops, reqOps(attack(gc.prefix)...)...)
@@ -939,6 +974,12 @@ func (staticEngine) Gen(r *Rand, tier string) Case {
 				ops = append(ops, gvarOp(gvarNames[r.Intn(len(gvarNames))], gvarRegex[r.Intn(len(gvarRegex))]))
 			}
 			withG = true
+		}
+		if r.Chance(1, 12) { // an upload / purge end point `<prefix>/{file}` registered before the static handler
+			for k, n := 0, r.Range(1, 2); k < n; k++ {
+				ops = append(ops, siblingOp(r.Pick([]string{"POST", "PUT", "DELETE"}), r.Pick([]string{"", "", ".+", `[\w.-]+`, `\d+`})))
+			}
+			tag += "+sibling"
 		}
 		ops = append(ops, mountOpF(kind, flags, prefix, exts, target))
 		nr := r.Range(6, 22)
